@@ -530,7 +530,10 @@ def standard_check(mod, tier, seed):
     rep.cov["samples"] = [{"case": lines[i][:400], "impl": (impl_out[i] or "")[:400]} for i in
                           sorted(set([0, len(lines) // 2, len(lines) - 1])) if lines]
     if hasattr(mod, "distribution") and impl_ok:
-        rep.cov["distribution"] = mod.distribution(lines, impl_out)
+        try:
+            rep.cov["distribution"] = mod.distribution(lines, impl_out)
+        except Exception as e:      # descriptive statistics only: never decide anything
+            rep.cov["distribution"] = {"error": repr(e)[:200]}
     rep.cov["model_impl_mismatches"] = len(mism)
     rep.cov["oracle_rejections"] = len(oracle_bad)
 
@@ -574,7 +577,7 @@ def standard_check(mod, tier, seed):
         found = getattr(mod, "MODEL_IS_SPEC", False)
         # a panic / crash / hang of the implementation where the proved model returns normally is itself
         # a concrete failing input (every property requires a normal return on its domain)
-        crashed = [j for j in unexplained if (impl_out[j] or "").startswith(("PANIC", "CRASH", "BOTHNIL", "BOTHSET"))
+        crashed = [j for j in unexplained if (impl_out[j] or "").startswith(("PANIC", "CRASH", "HANG", "BOTHNIL", "BOTHSET"))
                    and not (model_out[j] or "").startswith(("PANIC", "CRASH"))]
         if crashed:
             i = crashed[0]
